@@ -31,7 +31,7 @@ ASSUMPTIONS = [
     "variables without initial value start from the symbolic value <name>0, represented by an arbitrary rational",
 ]
 TIMEOUT = {"quick": 15, "thorough": 90}
-DEADLINE = {"quick": 75, "thorough": 1200}
+DEADLINE = {"quick": 75, "thorough": 1000}
 MIN_DECIDING = {"quick": 60, "thorough": 600}
 NCASES = {"quick": 240, "thorough": 9000}
 
